@@ -32,6 +32,27 @@ func straightScript(g *spec.Gen) *spec.Script {
 				s.Body.Stmts = append(s.Body.Stmts, &spec.CmdStmt{Cmd: &spec.Cmd{ID: g.Prog.NewID(), Name: []string{"end", "return"}[g.R.IntN(2)]}})
 				break
 			}
+			if g.R.IntN(3) == 0 {
+				// the user's own jumps are commands like any other: goto / call to the label on the very next
+				// line, to an earlier label or out of the file
+				name := []string{"goto", "goto", "call"}[g.R.IntN(3)]
+				switch g.R.IntN(3) {
+				case 0:
+					l := &spec.Label{ID: g.Prog.NewID(), Name: g.Name("Next")}
+					s.Body.Stmts = append(s.Body.Stmts, &spec.CmdStmt{Cmd: &spec.Cmd{ID: g.Prog.NewID(), Name: name, Args: []*spec.Arg{{Toks: []string{l.Name}}}}}, l)
+				case 1:
+					target := s.Name
+					for _, st := range s.Body.Stmts {
+						if l, ok := st.(*spec.Label); ok && g.R.IntN(2) == 0 {
+							target = l.Name
+						}
+					}
+					s.Body.Stmts = append(s.Body.Stmts, &spec.CmdStmt{Cmd: &spec.Cmd{ID: g.Prog.NewID(), Name: name, Args: []*spec.Arg{{Toks: []string{target}}}}})
+				default:
+					s.Body.Stmts = append(s.Body.Stmts, &spec.CmdStmt{Cmd: &spec.Cmd{ID: g.Prog.NewID(), Name: name, Args: []*spec.Arg{{Toks: []string{g.Name("Elsewhere")}}}}})
+				}
+				break
+			}
 			fallthrough
 		default:
 			c := g.Cmd()
